@@ -297,6 +297,16 @@ static void op_import(void) {
 		e = mmd_engine_create_with_string(rq.a[0].p, rq.ext);
 		r = kind ? mmd_engine_convert_itmz_to_text(e) : mmd_engine_convert_opml_to_text(e);
 		probe_dstring(mmd_engine_d_string(e), "import-engine-source");
+		if (rq.flags & 0x100) {
+			/* "without modifying original engine source": the source is as given, and asking again gives the same text */
+			DString * es = mmd_engine_d_string(e);
+			if (!kind) snapshot_check(rq.a[0].p, strlen(rq.a[0].p), es->str, es->currentStringLength, "import-engine-source");
+			DString * r2 = kind ? mmd_engine_convert_itmz_to_text(e) : mmd_engine_convert_opml_to_text(e);
+			if ((r == NULL) != (r2 == NULL) || (r && r2 && (r->currentStringLength != r2->currentStringLength || memcmp(r->str, r2->str, r->currentStringLength) != 0))) {
+				diagf("import-twice-differs:%zu:%zu;", r ? r->currentStringLength : 0, r2 ? r2->currentStringLength : 0);
+			}
+			if (r2) d_string_free(r2, true);
+		}
 	}
 	probe_dstring(r, "import-result");
 	if (r) { field(r->str, r->currentStringLength); d_string_free(r, true); }
